@@ -131,13 +131,14 @@ prop("C02",
      "contract plus these rules, by argument not by check).")
 
 prop("C03",
-     [ts2.rule_R1, sig.rule_R2, LEAK_SCOPED, ts2.rule_R3key, ts2.rule_R4, ts2.rule_R5, ts.rule_M4, A("rule_E5"), A("rule_Y3"), st.rule_M5, ts2.rule_R6],
+     [ts2.rule_R1, sig.rule_R2, LEAK_SCOPED, ts2.rule_R3key, ts2.rule_R4, ts2.rule_R5, ts.rule_M4, A("rule_E5"), A("rule_Y3"), st.rule_M5, ts2.rule_R6, st.rule_X1],
      "R1 unlock-style APIs release every lock of the consumed guard before returning its key; R2 key field declared after hold "
      "fields in every guard (drop order); R3 scoped calls hold nothing at return and at every unwinding exit; R3k the key outlives "
      "the closure; R4 a failed try returns Err(key) holding nothing and without running user code; R5 guard-returning APIs move the "
      "key exactly once into the result; E5 collection-level acquisitions hold every member exactly once on success and none on "
      "failure; Y3 the retrying collection never starts a blocking acquisition while it still holds a member; M5 a leaf lock's "
-     "acquiring op never panics after its raw acquisition returned (the key would come back while the raw lock stays locked).",
+     "acquiring op never panics after its raw acquisition returned (the key would come back while the raw lock stays locked); X1 a "
+     "leaf try reports exactly what the raw try did (a `false` while the raw lock was taken hands the key back with the lock held).",
      "the single-thread history enumeration itself (the rules are per-API invariants that make every history safe).")
 
 prop("C04",
@@ -173,10 +174,11 @@ prop("C14",
      thorough_rules=[W("C14", "nightly")])
 
 prop("C15",
-     [sig.rule_A1, sig.rule_A2, sig.rule_A3, sig.rule_A4, sig.rule_A6, sig.rule_A7, sig.rule_O1, sig.rule_O3, ts.rule_T1, W("C15")],
+     [sig.rule_A1, sig.rule_A2, sig.rule_A3, sig.rule_A4, sig.rule_A6, sig.rule_A7, sig.rule_O1, sig.rule_O3, ts.rule_T1, st.rule_N1N2, st.rule_N4, W("C15")],
      "Auto-trait table of all manual Send/Sync impls against std's Mutex/RwLock bounds, higher-ranked closure data in every "
      "scoped signature, hold types borrow their lock, read holds have no mutable access, unsafe markers, no shared access into "
-     "OwnedLockCollection, protected cells touched only under a hold (T1) - plus compile-fail witnesses with twins.",
+     "OwnedLockCollection, protected cells touched only under a hold (T1), constructors that skip the duplicate check require unsafe "
+     "or an OwnedLockable bound (N1) and OwnedLockable is never implemented for anything that borrows its locks (N4) - plus compile-fail witnesses with twins.",
      "soundness of unsafe blocks beyond T1/A5; programs outside the corpus.",
      thorough_rules=[W("C15", "nightly")])
 
@@ -215,11 +217,11 @@ prop("C10",
      "the history model (re-poison after clear, cross-thread visibility beyond Relaxed atomics).")
 
 prop("C11",
-     [ts2.rule_G1, ts2.rule_G2, LEAK_SCOPED, ts2.rule_R3key, st.rule_M1, sig.rule_R2, ts.rule_M4, ts2.rule_E4r],
+     [ts2.rule_G1, ts2.rule_G2, LEAK_SCOPED, ts2.rule_R3key, st.rule_M1, sig.rule_R2, ts.rule_M4, ts2.rule_E4r, st.rule_M2],
      "G1 handle_unwind is catch -> handler -> resume (no swallowed panic, handler only on unwind); G2 catch_unwind is used nowhere "
      "else; G3 every scoped function holds nothing at every unwinding exit (its handler releases the acquired receiver once, in "
      "mode); G4 RAII holds release in Drop and the key field drops after them; G5 the key is still owned by the frame while the "
-     "closure runs.",
+     "closure runs; M2 every release op of a leaf lock reaches its raw lock on every path (also when the lock has been killed).",
      "progress of waiting threads (schedules).")
 
 prop("C12",
@@ -231,9 +233,9 @@ prop("C12",
      "the fault-injection runs themselves; behaviour of third-party raw locks after a panic.")
 
 prop("C13",
-     [st.rule_X1, A("rule_X2"), ts2.rule_X3, ts2.rule_R4, cg.rule_E3, st.rule_M1, st.rule_M2, st.rule_E2, A("rule_E5")],
+     [st.rule_X1, A("rule_X2"), ts2.rule_X3, ts2.rule_R4, cg.rule_E3, st.rule_M1, st.rule_M2, st.rule_E2, A("rule_E5"), st.rule_E1],
      "X1 raw_try_* of Mutex/RwLock returns the unmodified lock_api try result on the not-killed path; X2 collection try is a "
-     "conjunction in list order with rollback, in the requested mode only; R4/E5 a failed attempt holds nothing; E3 never waits.",
+     "conjunction in list order with rollback, in the requested mode only; R4/E5 a failed attempt holds nothing; E3 never waits; E1 the list a collection tries is exactly the leaves of all its members, whatever the nesting.",
      "the raw lock's own exactness (try succeeds iff free) and the enumeration over held patterns.")
 
 prop("C16",
